@@ -138,6 +138,69 @@ pub fn scenarios(prop: &str, seed: u64, thorough: bool) -> Vec<Scenario> {
     out
 }
 
+/// Build the protocol-model instance for a scenario by mirroring what push()/sync_and_flush()/finalize()
+/// put into the queue (priority, cost, sequence, size).
+pub fn spec_for(sc: &Scenario) -> crate::proto::Spec {
+    use crate::proto::{Item, POp, Spec};
+    let n = sc.cfg.threads;
+    let mut script: Vec<POp> = Vec::new();
+    let mut next_p: i32 = i32::MAX;
+    let mut prio: std::collections::BTreeMap<String, i32> = Default::default();
+    let mut count = 0usize;
+    let mut seq = 0u32;
+    let mut contig_idx = 0u16;
+    let concatenated = sc.flow == Flow::SingleFile;
+    let tokens = |script: &mut Vec<POp>, p: i32, sq: u32| {
+        for _ in 0..n { script.push(POp::Push(Item { prio: p, cost: 0, seq: sq, token: true, size: 0, contig: u16::MAX })); }
+    };
+    let mut push_contig = |script: &mut Vec<POp>, sample: &str, len: usize, next_p: &mut i32, count: &mut usize, seq: &mut u32, contig_idx: &mut u16| {
+        let sq = *seq;
+        *seq += 1;
+        let cur = *prio.entry(sample.to_string()).or_insert_with(|| { let p = *next_p; *next_p -= 1; p });
+        *count += 1;
+        let mut p = cur;
+        if concatenated && *count % sc.cfg.pack_size == 0 {
+            let newp = *next_p;
+            *next_p -= 1;
+            prio.insert(sample.to_string(), newp);
+            for _ in 0..n { script.push(POp::Push(Item { prio: cur, cost: 0, seq: sq, token: true, size: 0, contig: u16::MAX })); }
+            p = newp;
+        }
+        script.push(POp::Push(Item { prio: p, cost: len as u32, seq: sq, token: false, size: len as u32, contig: *contig_idx }));
+        *contig_idx += 1;
+    };
+    let samples = &*sc.samples;
+    match sc.flow {
+        Flow::FinalizeOnly => {}
+        Flow::SingleFile => {
+            for (si, (sname, contigs)) in samples.iter().enumerate() {
+                if si == 1 { script.push(POp::PollEmpty); }
+                for (_, d) in contigs { push_contig(&mut script, sname, d.len(), &mut next_p, &mut count, &mut seq, &mut contig_idx); }
+            }
+        }
+        Flow::MultiFile => {
+            for (_, d) in &samples[0].1 { push_contig(&mut script, &samples[0].0, d.len(), &mut next_p, &mut count, &mut seq, &mut contig_idx); }
+            script.push(POp::PollEmpty);
+            let sq = seq; seq += 1;
+            tokens(&mut script, 1_000_000, sq);
+            script.push(POp::PollEmpty);
+            for (sname, contigs) in &samples[1..] {
+                for (_, d) in contigs { push_contig(&mut script, sname, d.len(), &mut next_p, &mut count, &mut seq, &mut contig_idx); }
+            }
+        }
+        Flow::SyncInFlight => {
+            for (si, (sname, contigs)) in samples.iter().enumerate() {
+                for (_, d) in contigs { push_contig(&mut script, sname, d.len(), &mut next_p, &mut count, &mut seq, &mut contig_idx); }
+                if si < 2 { let sq = seq; seq += 1; tokens(&mut script, 1_000_000, sq); script.push(POp::PollEmpty); }
+            }
+        }
+    }
+    tokens(&mut script, 1_000_000, 0);
+    script.push(POp::Close);
+    script.push(POp::Join);
+    Spec { n, cap: sc.cfg.queue_capacity as u64, script, contigs: contig_idx as usize }
+}
+
 #[derive(Clone)]
 pub struct Obs {
     pub result: Result<String, String>, // archive sha256 or error text
@@ -164,10 +227,34 @@ pub fn run(prop: &'static str) -> i32 {
     let mut total_branches = 0u64;
     let mut per_scenario = Vec::new();
     let mut verified_hashes: HashMap<String, bool> = HashMap::new();
+    let mut model_states = 0u64;
+    let mut model_transitions = 0u64;
+    let mut model_capped = 0u32;
+    let mut replayed = 0u64;
+    let mut replay_steps = 0u64;
+    let mut divergences: Vec<String> = Vec::new();
     for sc in &scs {
         if let Ok(f) = std::env::var("RVX_SCENARIO") { if !sc.name.contains(&f) { continue; } }
         if std::env::var("RVX_DEBUG").is_ok() { crate::arch::restore_stderr(unsafe { libc::dup(saved) }); eprintln!("scenario {}", sc.name); }
         let splitters = Arc::new(splitters_for(&sc.samples[0].1, &sc.cfg));
+        // ---- protocol model of this scenario: all interleavings, no preemption bound
+        let spec = spec_for(sc);
+        let model_cap = if th { 6_000_000 } else { 1_500_000 };
+        let ex = if prop == "C05" { Some(crate::proto::explore(&spec, model_cap)) } else { None };
+        if let Some(ex) = &ex {
+            model_states += ex.states;
+            model_transitions += ex.transitions;
+            if ex.capped { model_capped += 1; }
+            let oversized = sc.group == "oversized";
+            if !ex.capped {
+                if !ex.deadlocks.is_empty() {
+                    rep.violation(&format!("C05:model_deadlock:{}", if oversized { "item_larger_than_queue_capacity".to_string() } else { sc.group.replace(' ', "_") }), "the protocol model has a reachable state without enabled action that is not final", json!({"scenario": sc.name, "state": format!("{:?}", ex.deadlocks[0])}));
+                }
+                if ex.has_cycle { rep.violation(&format!("C05:model_cycle:{}", sc.group.replace(' ', "_")), "the protocol model has a cycle (an infinite execution)", json!({"scenario": sc.name})); }
+                if !ex.bad_terminals.is_empty() { rep.violation(&format!("C05:model_contigs_left_behind:{}", sc.group.replace(' ', "_")), "the protocol model can finish with contigs that were never classified", json!({"scenario": sc.name, "state": format!("{:?}", ex.bad_terminals[0])})); }
+                for e in &ex.model_errors { rep.violation(&format!("C05:model_error:{}", sc.group.replace(' ', "_")), e, json!({"scenario": sc.name})); }
+            }
+        }
         let sc2 = sc.clone();
         let dirs = dir.clone();
         let body = move |ti: usize| -> Obs {
@@ -194,6 +281,15 @@ pub fn run(prop: &'static str) -> i32 {
         let mut max_branches = 0usize;
         let shared = explore(bound, ncpu(), max_exec, 2_000_000, vec![], body, |r: ExecResult<Obs>| {
             n_exec += 1;
+            if prop == "C05" {
+                // conformance: the real execution must be a behaviour of the model (impl ⊆ model)
+                let evs: Vec<crate::proto::Ev> = r.events.iter().map(|e| crate::proto::Ev { task: e.task, kind: e.kind.to_string(), a: e.a, b: e.b }).collect();
+                let completed = matches!(r.outcome, Ok(Obs { result: Ok(_) }));
+                match crate::proto::replay(&spec, &evs, completed) {
+                    Ok(st) => { replayed += 1; replay_steps += st; }
+                    Err(d) => if divergences.len() < 5 { divergences.push(format!("{}: choices {:?}: {}", sc.name, r.choices, d)); },
+                }
+            }
             traces.insert(events_digest(&r.events));
             max_branches = max_branches.max(r.branches.len());
             total_branches += r.branches.len() as u64;
@@ -249,9 +345,19 @@ pub fn run(prop: &'static str) -> i32 {
     let _ = std::fs::remove_dir_all(&dir);
     rep.eval(total_exec);
     rep.nontriv(total_traces);
-    rep.set("states", json!(total_traces));
-    rep.set("transitions", json!(total_branches));
-    rep.set("traces_validated_against_impl", json!(total_exec));
+    if prop == "C05" {
+        rep.set("states", json!(model_states));
+        rep.set("transitions", json!(model_transitions));
+        rep.set("traces_validated_against_impl", json!(replayed));
+        rep.set("model_scenarios_capped", json!(model_capped));
+        rep.set("model_steps_replayed", json!(replay_steps));
+        rep.set("distinct_event_traces", json!(total_traces));
+        for d in &divergences { rep.machinery_error(format!("model/code divergence (the protocol model no longer describes the code; not a verdict): {d}")); }
+    } else {
+        rep.set("states", json!(total_traces));
+        rep.set("transitions", json!(total_branches));
+        rep.set("traces_validated_against_impl", json!(total_exec));
+    }
     rep.set("schedules_executed", json!(total_exec));
     rep.set("deviation_bound_completed", json!(bound));
     rep.set("distinct_archives_per_group", json!(group_hashes.iter().map(|(g, h)| (g.clone(), h.len())).collect::<BTreeMap<_, _>>()));
